@@ -66,6 +66,7 @@ type fnInfo struct {
 	n        int
 	repoFunc bool // a function of /repo proper (not a harness, not std)
 	ipdom    []int
+	endpoint int // 0 no; 1 dashboard endpoint method (marker, body runs); 2 marker only (body cut)
 }
 
 type VM struct {
@@ -156,6 +157,17 @@ func (vm *VM) getInfo(fn *ssa.Function) *fnInfo {
 		}
 		file := vm.prog.Fset.Position(pos).Filename
 		fi.repoFunc = pos.IsValid() && !strings.Contains(file, "zz_verif")
+		if recv := fn.Signature.Recv(); recv != nil && len(fn.Params) == 4 && strings.HasSuffix(strings.TrimPrefix(recv.Type().String(), "*"), "Endpoint") {
+			switch fn.Name() {
+			case "Get", "Post", "Patch", "Put", "Delete":
+				// only login and logout keep their bodies (their effects are part of C20);
+				// for every other endpoint "the handler ran" is what is observed
+				fi.endpoint = 2
+				if rn := recv.Type().String(); strings.HasSuffix(rn, "LoginEndpoint") || strings.HasSuffix(rn, "LogoutEndpoint") {
+					fi.endpoint = 1
+				}
+			}
+		}
 	}
 	vm.fninfo[fn] = fi
 	return fi
@@ -269,6 +281,11 @@ func (vm *VM) callValue(fv Value, args []Value, site ssa.Instruction) Value {
 const maxDepth = 400
 
 func (vm *VM) callFunction(fn *ssa.Function, args []Value, env []Value) (ret Value) {
+	if len(vm.P.overrides) > 0 {
+		if ov, ok := vm.P.overrides[fn.String()]; ok {
+			return vm.callValue(ov, args, nil)
+		}
+	}
 	if in, ok := vm.lookupIntrinsic(fn); ok {
 		return in(vm, fn, args)
 	}
@@ -285,6 +302,12 @@ func (vm *VM) callFunction(fn *ssa.Function, args []Value, env []Value) (ret Val
 	info := vm.getInfo(fn)
 	if info.repoFunc && !vm.inInit {
 		vm.P.touched[fn.String()] = true
+	}
+	if info.endpoint != 0 {
+		vm.bumpMarker("endpoint-method")
+		if info.endpoint == 2 {
+			return nil // the endpoint's own effects are outside C20: "the handler ran" is what is observed
+		}
 	}
 	fr := &Frame{fn: fn, info: info, env: make([]Value, info.n), caller: vm.cur}
 	if len(args) != len(fn.Params) {
